@@ -53,18 +53,20 @@ def decodeDyn (s : String) : Except Err Dyn :=
 def decodeKey (s : String) : Except Err Key :=
   match parseKey s.toList with | some k => .ok k | none => .error .invalid
 
+/-- yaml.Unmarshal into `input.Chord`: an absent `degree:` leaves the zero Degree -/
+def decodeChord (c : RawChord) : Except Err ChordIn :=
+  (match c.degree with | none => (Except.ok ⟨0, .unknown⟩ : Except Err Degree) | some s => decodeDegree s).bind fun d =>
+  (optM c.base decodeDegree).bind fun b => .ok ⟨d, c.name, b⟩
+
 /-- yaml.Unmarshal into `input.Instance` -/
-def decodeInstance (r : RawInstance) : Except Err Instance := do
-  let chord ← optM r.chord fun c => do
-    let d ← match c.degree with | none => pure ⟨0, .unknown⟩ | some s => decodeDegree s
-    let b ← optM c.base decodeDegree
-    pure (ChordIn.mk d c.name b)
-  let values ← r.values.mapM decodeRat
-  let bpm ← optM r.bpm decodeBPM
-  let vel ← optM r.velocity decodeDyn
-  let meter ← optM r.meter decodeRat
-  let key ← optM r.key decodeKey
-  pure { chord, values, bpm, velocity := vel, meter, key, mta := r.mta }
+def decodeInstance (r : RawInstance) : Except Err Instance :=
+  (optM r.chord decodeChord).bind fun chord =>
+  (r.values.mapM decodeRat).bind fun values =>
+  (optM r.bpm decodeBPM).bind fun bpm =>
+  (optM r.velocity decodeDyn).bind fun vel =>
+  (optM r.meter decodeRat).bind fun meter =>
+  (optM r.key decodeKey).bind fun key =>
+  .ok { chord, values, bpm, velocity := vel, meter, key, mta := r.mta }
 
 /-- yaml.Marshal of `input.Instance`: every scalar through its `MarshalYAML`/`String` -/
 def encodeInstance (i : Instance) : RawInstance :=
@@ -102,5 +104,35 @@ def cmdWrite (f : WriteFlags) (rawAttrs : List RawAttr) (rs : List RawInstance) 
 /-- `crd text conv` up to the raw (printed) instances -/
 def cmdTextConvRaw (mode : Mode) (key : String) (input : List Nat) : Except Err (List RawInstance) :=
   (cmdTextConv mode key input).map (·.map encodeInstance)
+
+end Crd
+
+namespace Crd
+open Generated
+
+/-- `ChordMetaTextMotifier.generateText` with separators "." and " on ":
+`fmt.Sprintf("%d%s%s%s", Degree.Value, Degree.Name.Coerce(), ".", Chord)` (+ `" on " + base.String()`) -/
+def cmtText (c : ChordIn) : String :=
+  toString c.degree.value ++ (c.degree.name.coerce.str?.getD coercePanicText) ++ "." ++ c.name ++
+    (match c.base with | none => "" | some b => " on " ++ b.str)
+
+/-- `ChordMetaTextMotifier.Modify`: chords get `meta.txt`; rests are left alone -/
+def modifyCmt (i : Instance) : Instance :=
+  match i.chord with
+  | none => i
+  | some c => { i with mta := some ((i.mta.getD []) ++ [(metaTextKey, cmtText c)]) }
+
+/-- `crd write conv -c …` (after the D4 and D11 fixes): decode, apply the modifiers, validate exactly as `write`
+does (track count, dictionaries, flag overrides, chord symbols), keep the flag overrides of the first instance,
+print the instances in the format `write` reads -/
+def cmdWriteConv (f : WriteFlags) (rawAttrs : List RawAttr) (commands : List String) (rs : List RawInstance) :
+    Except Err (List RawInstance) :=
+  if commands.isEmpty then .error .invalid else
+  (rs.mapM decodeInstance).bind fun is =>
+  if commands.any (· ≠ "cmt") then .error .notFound else
+  let is1 := is.map modifyCmt        -- every "cmt" has the same effect; applying it again changes nothing
+  (loadAttrs rawAttrs).bind fun attrs =>
+  (prepareWrite { f with userAttrs := attrs } is1).bind fun (_, _, is2) =>
+  .ok (is2.map encodeInstance)
 
 end Crd
